@@ -7,7 +7,7 @@ Open Scope string_scope.
 Open Scope list_scope.
 
 (** For every data model in which only callables can be called, and every condition without
-    comprehensions and dict displays: if Python evaluates it to [v], the re-evaluator - started from
+    comprehensions (dictionary displays with unpacked mappings included): if Python evaluates it to [v], the re-evaluator - started from
     the same tables - returns [v], ends in the same tables and records exactly the nodes Python
     evaluated, with Python's values, in Python's order. *)
 Theorem C06_reevaluation_is_evaluation (P : prims) :
@@ -74,6 +74,18 @@ Example C06_example_runs :
   exists v m' l, ev py_prims 0 ex_body ([("a", VInt 0); ("b", VInt 0); ("r", VRec 1 [("size", VInt 3)])], []) = Ok (v, (m', l))
                  /\ truth_of v = false /\ List.length l = 6%nat.
 Proof. eexists. eexists. eexists. vm_compute. repeat split. Qed.
+
+(** non-vacuity for dictionary displays: len({(t := x + 1): t, **d}) == 0 - the value uses the name the key binds
+    (D26), a mapping is unpacked (D27) *)
+Definition ex_dict : expr :=
+  ECmp (ECall (EName "len")
+          (ECons (EDict (DCons (ENamed "t" (EBin BAdd (EName "x") (EConst (VInt 1)))) (EName "t") (DStar (EName "d") DNil))) ENil) KNil)
+       (CCons CEq (EConst (VInt 0)) CNil).
+Example C06_example_dict :
+  simple ex_dict = true /\
+  exists m' l, ev py_prims 0 ex_dict ([("x", VInt 1); ("d", VDict [(VStr "b", VInt 2)])], []) = Ok (VBool false, (m', l))
+               /\ In (3%nat, VDict [(VInt 2, VInt 2); (VStr "b", VInt 2)]) l.
+Proof. split; [reflexivity|]. eexists. eexists. split; [vm_compute; reflexivity|]. cbn. tauto. Qed.
 
 (** D21 (recorded finding): a name evaluated inside an f-string is not listed.  Closure s = 'a',
     x = 3, condition  f"n={x}{s!r}" == 'zz'. *)
